@@ -1088,11 +1088,10 @@ class Interp:
                     key = ("@global", r[1].name, n)
                     if key not in self.class_attrs:
                         self.class_attrs[key] = ("fn", "global " + n, [])        # guards against self-reference
-                        if isinstance(r[2], (ast.Tuple, ast.List, ast.Dict, ast.Name, ast.Attribute, ast.Call)) and not any(isinstance(x, (ast.Lambda, ast.Yield, ast.Await)) for x in ast.walk(r[2])) \
-                                and not (isinstance(r[2], ast.Call) and not isinstance(r[2].func, ast.Name)):
+                        if isinstance(r[2], (ast.Tuple, ast.List, ast.Dict, ast.Name, ast.Attribute, ast.Call)) and not any(isinstance(x, (ast.Lambda, ast.Yield, ast.Await)) for x in ast.walk(r[2])):
                             try:
                                 v_ = self.expr(r[2], {"@module": r[1], "@owner": None}, 1)
-                                if v_[0] in ("list", "dict", "cls", "closure") or (v_[0] == "c"):
+                                if v_[0] in ("list", "dict", "cls", "closure", "ext") or (v_[0] == "c"):
                                     self.class_attrs[key] = v_
                             except (NeedAtom, _Raise, Budget):
                                 pass
@@ -1572,8 +1571,12 @@ class Interp:
         if isinstance(ce, (ast.Tuple, ast.List)):
             out = []
             for x in ce.elts:
-                cc = self.repo.resolve_expr_class(kc.module, x)
-                out.append(("cls", cc) if cc is not None else ("fn", unparse(x), []))
+                cc = self.repo.resolve_expr_class(kc.module, x) if isinstance(x, (ast.Name, ast.Attribute)) else None
+                if cc is not None:
+                    out.append(("cls", cc))
+                    continue
+                v_ = self.class_const_value(kc, c, x)          # nested tables: (tag, class) pairs, name tuples, ...
+                out.append(v_ if v_ != ("fn", "const", []) else ("fn", unparse(x), []))
             return ("list", out)
         if isinstance(ce, ast.Name) and ce.id in kc.consts:
             return self.class_const_value(kc, c, kc.consts[ce.id])
@@ -2073,6 +2076,7 @@ class Interp:
         if k == "ext":
             # an unknown method called on an opaque external object: the object now carries what was put into it,
             # and the call is recorded (dispatcher / protocol / manager calls are effects some rules look at)
+            was_plain = not recv[2]
             recv[2].extend(list(args) + list(kwargs.values()))
             self.emit("CALL", recv[1] + "." + name, list(args), recv)
             h = self.hooks.get("ext:" + recv[1] + "." + name) or self.hooks.get("ext:*." + name)
@@ -2091,7 +2095,7 @@ class Interp:
                     # the failed attempt did not take the lock: undo the CALL record's effect on the balance
                     self.emit("CALL", recv[1] + ".release", [], recv)
                 return ("c", bool(ok_))
-            if not recv[1].endswith(")") and not recv[2] and name[:1].isupper() and not name.isupper() and name not in ("Empty", "Full"):
+            if not recv[1].endswith(")") and (was_plain or recv[1].startswith("module ") or "." not in recv[1] and recv[1].islower()) and name[:1].isupper() and not name.isupper() and name not in ("Empty", "Full"):
                 # a class of a library module is instantiated (threading.Lock(), Queue.Queue()): a fresh opaque object
                 # whose method calls are recorded
                 return ("ext", name + "()", list(args) + list(kwargs.values()))
